@@ -1766,6 +1766,35 @@ def returns_to_the_indifferent_decision_requeue_both(prog, rep, R):
               where=lonely and lonely[0].split("@")[-1] or None, instance={"return_calls": len(sites), "returns_through_a_helper": helper_sites, "unpaired": lonely[:3]})
 
 
+def continuing_token_is_measured_from_the_last_child_line(prog, rep, R):
+    """C11.o — a token that continues the line behind a token with child lines stands on the LAST child line (`end) do`), however long
+    the parent token's own line is.  Where the position of the next token is computed (get_token_line_length, its closures and the
+    helpers it calls) the previous line end is a *choice* — the last child line's end if there are child lines, otherwise the
+    decision's own (`unwrap_or`, `match`) — and never the *larger* of the two: that maximum is right for the over-length test of the
+    search (both lines have to fit) and wrong here, where it charges the continuing token an overflow it does not have, for limits
+    between the two lengths only."""
+    from util import family_bodies
+    b = prog.body(OLF + "InternalOptimisingLineFormatter::get_token_line_length")
+    if not rep.check(b is not None, R, "anchor:get_token_line_length", "get_token_line_length not found"):
+        return
+    bad, n = [], 0
+    for body, _a, _c in family_bodies(prog, b, depth=2):
+        if not body.npath.startswith(OLF) or body.npath.endswith("::find_optimal_solution"):
+            continue
+        for c in body.calls():
+            nm = (c.callee or "").split("::")[-1]
+            texts = [canon(body, a2) for a2 in c.args]
+            if any("get_last_child_line_len(" in t for t in texts):
+                n += 1
+                if nm in ("max", "max_by", "max_by_key", "fold", "reduce"):
+                    bad.append("%s: %s(%s)" % (short(body.npath), nm, ", ".join(t[:40] for t in texts)))
+    rep.check(not bad, R, "last-child-line-replaces-the-parent-line",
+              "the position of a token that continues behind child lines is computed from the larger of the parent token's line and the last child line (%s) instead of from the last child line: "
+              "for limits between the two lengths the token is charged an overflow it does not have and the search picks another layout, although the result of the wider limit fits" % bad[:2],
+              instance={"uses_of_the_last_child_line_length": n, "combined_by_maximum": bad[:3]})
+    rep.floor(R, "uses of get_last_child_line_len in the measuring family", n, 1)
+
+
 def check_c08(prog, rep, tier, cfg):
     line_comment_trailing_blanks(prog, rep, "C08.d")
     # a gap nobody decides keeps the input's blank count: more than one space between two tokens on a line
@@ -2748,6 +2777,7 @@ def check_c11(prog, rep, tier, cfg):
     line_spanning_kinds_measured(prog, rep, "C11.k")
     line_end_follows_child_lines(prog, rep, "C11.m")
     returns_to_the_indifferent_decision_requeue_both(prog, rep, "C11.n")
+    continuing_token_is_measured_from_the_last_child_line(prog, rep, "C11.o")
     # C11.l — what is compared with wrap_column is measured in one unit everywhere (shared with C03.g): a line measured in characters at one
     # place and in bytes at another fits by one measure and sticks out by the other, and which one decides depends on the width
     width_measures_agree(prog, rep, "C11.l")
